@@ -19,6 +19,7 @@ import (
 	"errors"
 	"io"
 	"net"
+	"sync"
 
 	"github.com/honeytrap/honeytrap/director"
 	"github.com/honeytrap/honeytrap/event"
@@ -185,16 +186,37 @@ func (s *sshProxyService) Handle(ctx context.Context, conn net.Conn) error {
 			event.Custom("ssh.channel-type", newChannel.ChannelType()),
 		))
 
-		requestFn := func(in <-chan *ssh.Request, dst ssh.Channel) {
-			defer dst.Close()
+		// A relayed channel is closed towards one side only when everything on its way to that
+		// side has been passed on: the data (the copy in that direction has ended) and the reply
+		// to a request of that side which is still being relayed.
+		type relaySide struct {
+			drained chan struct{}
+			reply   sync.Mutex
+		}
+
+		clientSide := &relaySide{drained: make(chan struct{})}
+		backendSide := &relaySide{drained: make(chan struct{})}
+
+		requestFn := func(in <-chan *ssh.Request, dst ssh.Channel, from, to *relaySide) {
+			defer func() {
+				<-to.drained
+
+				to.reply.Lock()
+				dst.Close()
+				to.reply.Unlock()
+			}()
 
 			for req := range in {
 				log.Debugf("Request: %s %s %s %s\n", dst, req.Type, req.WantReply, req.Payload)
 
+				from.reply.Lock()
+
 				b, err := dst.SendRequest(req.Type, req.WantReply, req.Payload)
 				if err == io.EOF {
+					from.reply.Unlock()
 					return
 				} else if err != nil {
+					from.reply.Unlock()
 					log.Errorf("Error sending request: %s", err)
 					return
 				}
@@ -235,16 +257,20 @@ func (s *sshProxyService) Handle(ctx context.Context, conn net.Conn) error {
 					log.Errorf("wantreply: ", err)
 				}
 
+				from.reply.Unlock()
+
 				s.c.Send(event.New(
 					options...,
 				))
 			}
 		}
 
-		go requestFn(requests, channel2)
-		go requestFn(requests2, channel)
+		go requestFn(requests, channel2, clientSide, backendSide)
+		go requestFn(requests2, channel, backendSide, clientSide)
 
-		copyFn := func(dst ssh.Channel, src io.ReadCloser) {
+		copyFn := func(dst ssh.Channel, src io.ReadCloser, to *relaySide) {
+			defer close(to.drained)
+
 			_, err := io.Copy(dst, src)
 			if err == io.EOF {
 			} else if err != nil {
@@ -260,8 +286,8 @@ func (s *sshProxyService) Handle(ctx context.Context, conn net.Conn) error {
 		twrc := NewTypeWriterReadCloser(channel2)
 		var wrappedChannel2 io.ReadCloser = twrc
 
-		go copyFn(channel2, wrappedChannel)
-		copyFn(channel, wrappedChannel2)
+		go copyFn(channel2, wrappedChannel, backendSide)
+		copyFn(channel, wrappedChannel2, clientSide)
 
 		s.c.Send(event.New(
 			services.EventOptions,
